@@ -24,6 +24,7 @@ var classes = []class{
 	{grun.FindErrTrapRep, func(c Case, f *syntax.File) bool { return grun.ErrTrapRepeated(f) }},
 	{grun.FindErrexitNeg, func(c Case, f *syntax.File) bool { return grun.ErrexitUnderNegation(f) }},
 	{grun.FindErrexitSub, func(c Case, f *syntax.File) bool { return grun.ErrexitIgnoredContextLostInSubshell(f) }},
+	{grun.FindForVarRet, func(c Case, f *syntax.File) bool { return grun.ForContinuesAfterReturn(f) }},
 	{grun.FindWhileStat, func(c Case, f *syntax.File) bool { return grun.WhileBodyMayFail(f) }},
 }
 
